@@ -1,28 +1,84 @@
 // Known findings of the pinned tree: each class is recognised by its mechanism
-// (how + message + top cue frame), never wider.  See design/C02-explore-notes.md.
+// (how it died + message + the cue frames on the stack + the shape of the
+// input), never wider.  See design/C02-explore-notes.md.
+//
+// F-C02-1 (nondeterministic order of "unreferenced alias or let clause" errors)
+// is recognised on the transcripts themselves: worker.go normalize().
 package main
 
-import "regexp"
+import (
+	"bytes"
+	"regexp"
+)
 
 type knownClass struct {
-	ID        string `json:"id"`
-	What      string `json:"what"`
-	How       string `json:"how"`       // crash `how`, or "nondet"
-	DetailRe  string `json:"detail_re"` // must match the crash detail / diff summary
-	InputRe   string `json:"input_re"`  // must match the input text ("" = any)
-	detail    *regexp.Regexp
-	input     *regexp.Regexp
+	ID       string `json:"id"`
+	What     string `json:"what"`
+	How      string `json:"how"`       // crash `how`
+	DetailRe string `json:"detail_re"` // must match the crash detail
+	Input    string `json:"input"`     // description of the input predicate
+	detail   *regexp.Regexp
+	input    func(src []byte) bool
 }
 
-var knownClasses = []*knownClass{}
+var knownClasses = []*knownClass{
+	{
+		ID: "F-C02-1",
+		What: "internal/core/compile popScope ranges over the alias map: the order of 'unreferenced alias or let clause' errors " +
+			"(err.Error(), errors.Errors(err), the error quoted by exporters) differs between runs of the same input",
+		How:      "nondet",
+		DetailRe: `^transcripts differ only in the order of 'unreferenced alias or let clause' errors`,
+		Input:    "any (recognised on the transcripts: equal after worker.go normalize())",
+	},
+	{
+		ID: "F-C02-2",
+		What: "nesting that does not pass parser.parseUnaryExpr (field chains `a: a: a: ... 1`, comprehension bodies `if c {if c {...`) " +
+			"is not bounded by maxNestLevel; astutil.Resolve, called from parser.ParseFile, recurses once per level: " +
+			"about 300000 levels (a 0.9 MB file) end in `fatal error: stack overflow` (goroutine stack exceeds the 1 GB limit)",
+		How:      "fatal",
+		DetailRe: `(?s)goroutine stack exceeds 1000000000-byte limit.*fatal error: stack overflow.*cue/ast/astutil\.\(\*scope\)\.Before`,
+		Input:    ">= 100000 directly nested field labels (`l: l: l: ...`) or >= 100000 occurrences of `if true {`",
+		input:    func(src []byte) bool { return labelChain(src) >= 100000 || bytes.Count(src, []byte("if true {")) >= 100000 },
+	},
+}
 
 func init() {
 	for _, k := range knownClasses {
 		k.detail = regexp.MustCompile(k.DetailRe)
-		if k.InputRe != "" {
-			k.input = regexp.MustCompile(k.InputRe)
+	}
+}
+
+// labelChain: the longest run of `ident:` tokens directly following each other.
+func labelChain(src []byte) int {
+	best, cur := 0, 0
+	i := 0
+	isIdent := func(c byte) bool {
+		return c == '_' || c == '#' || c == '$' || (c >= 'a' && c <= 'z') || (c >= 'A' && c <= 'Z') || (c >= '0' && c <= '9')
+	}
+	for i < len(src) {
+		for i < len(src) && (src[i] == ' ' || src[i] == '\t') {
+			i++
+		}
+		j := i
+		for j < len(src) && isIdent(src[j]) {
+			j++
+		}
+		if j > i && j < len(src) && src[j] == ':' {
+			cur++
+			if cur > best {
+				best = cur
+			}
+			i = j + 1
+			continue
+		}
+		cur = 0
+		if j == i {
+			i++
+		} else {
+			i = j
 		}
 	}
+	return best
 }
 
 func matchKnown(how, detail string, src []byte) string {
@@ -33,7 +89,7 @@ func matchKnown(how, detail string, src []byte) string {
 		if !k.detail.MatchString(detail) {
 			continue
 		}
-		if k.input != nil && !k.input.Match(src) {
+		if k.input != nil && !k.input(src) {
 			continue
 		}
 		return k.ID
@@ -43,4 +99,4 @@ func matchKnown(how, detail string, src []byte) string {
 
 func classifyCrash(c *Crash, src []byte) string { return matchKnown(c.How, c.Detail, src) }
 
-func classifyNondet(n *Nondet, src []byte) string { return matchKnown("nondet", n.Diff, src) }
+func classifyNondet(n *Nondet, src []byte) string { return "" }
